@@ -334,26 +334,36 @@ _CONF_CODE = r"""
 import sys, json, importlib
 import mc
 from mc.world import World
-mods = json.load(sys.stdin)
-w = World(modules=tuple("measured." + m for m in mods))
+conf = json.load(sys.stdin)
+# a configuration is a list of modules, or {"stages": [[modules], [modules], ...]}: every stage
+# imports its modules and then runs the whole round trip, so that text parsed while fewer
+# units were registered is parsed again after more of them are (parse results must follow
+# the registry, not the parse history)
+stages = conf["stages"] if isinstance(conf, dict) else [conf]
+w = World(modules=tuple("measured." + m for m in stages[0]))
 import mc.world as W
 W._WORLD = w
 from mc.checks import c13
-units = c13.named_units(w)
 n, viols, outcomes = 0, [], {}
-pre = c13.prefixes(w)
-for u in units:
-    for p in pre:
-        for e in (1, -1, 2):
-            try:
-                x = (p * u) ** e
-            except Exception:
-                continue
-            n += 1
-            oc, v = c13.judge_unit(w, x, f"({p.name or 'identity'}*{u.name})**{e}")
-            outcomes[oc] = outcomes.get(oc, 0) + 1
-            if v:
-                viols.append([v[0], v[1], v[2], {"conf": mods, "a": [u.name, p.name, e]}])
+for si, stage in enumerate(stages):
+    if si:
+        for m in stage:
+            importlib.import_module("measured." + m)
+        c13._ORACLE = None
+    units = c13.named_units(w)
+    pre = c13.prefixes(w)
+    for u in units:
+        for p in pre:
+            for e in (1, -1, 2):
+                try:
+                    x = (p * u) ** e
+                except Exception:
+                    continue
+                n += 1
+                oc, v = c13.judge_unit(w, x, f"({p.name or 'identity'}*{u.name})**{e}")
+                outcomes[oc] = outcomes.get(oc, 0) + 1
+                if v:
+                    viols.append([v[0], v[1], v[2], {"conf": conf, "a": [u.name, p.name, e], "stage": si}])
 print(json.dumps({"n": n, "viols": viols, "outcomes": outcomes, "units": len(units)}))
 """
 
@@ -390,6 +400,11 @@ def run(rep, tier):
     confs = [[m] for m in MODULES]
     if thorough:
         confs += [list(c) for c in itertools.combinations(MODULES, 2)]
+    # staged configurations: some modules, a full round trip, then everything, again
+    firsts = [[m] for m in MODULES] if thorough else [["si"], ["us"], ["iec", "si"], ["avoirdupois"], ["astronomical"]]
+    confs += [{"stages": [f, ["systems"]]} for f in firsts]
+    if thorough:
+        confs += [{"stages": [[a], [b], ["systems"]]} for a, b in (("si", "us"), ("us", "si"), ("iec", "us"), ("natural", "iso"))]
     n_conf = 0
     for mods, r in zip(confs, pmap(_conf_run, confs)):
         n += r["n"]
@@ -418,7 +433,7 @@ def run(rep, tier):
 def replay(obj, kind=None):
     if "conf" in obj:
         r = _conf_run(obj["conf"])
-        hit = [v for v in r["viols"] if v[3]["a"] == obj["a"]]
+        hit = [v for v in r["viols"] if v[3]["a"] == obj["a"] and v[3].get("stage", 0) == obj.get("stage", 0)]
         return bool(hit), "; ".join(v[2] for v in hit) or "round trip fine in this configuration"
     w = get_world()
     if "a" in obj:
